@@ -43,8 +43,9 @@ SPEC = dict(
         ),
         thorough=(
             "ALL 21 297 ternary matrices up to 3x3 for every aggregator and configuration; Near; D(seed) up to 5x4; row "
-            "scalings L3^m on all ternary matrices up to 3x3 for UPGrad/DualProj/MGDA and on all shapes <= 3x2 plus canonical "
-            "3x3 for CAGrad; global scales {1e-3,1e6} on canonical/Near/D"
+            "scalings L3^m on all ternary matrices up to 3x3 for UPGrad/DualProj/MGDA (MGDA on 3x3: max_iters=20, epsilon=0 on all, the default "
+            "configuration on the canonical sublist) and on all shapes <= 3x2 plus canonical 3x3 for CAGrad; global scales {1e-3,1e6} on "
+            "canonical/Near/D"
         ),
     ),
     assumptions=[
@@ -102,7 +103,13 @@ def gen_cases(tier, seed):
             else:
                 add("canon", m, n, NC, fam, "base")
             if m >= 2 and (thorough or m == 2):
-                add("ternary", m, n, N, fam, "rows")
+                if fam == "mgda" and (m, n) == (3, 3):
+                    # 472 392 scaled 3x3 matrices: the 20-iteration Frank-Wolfe configuration on all of them, the (slow) default
+                    # configuration on the scalings of the canonical sublist
+                    add("ternary", m, n, N, fam, "rows-fw20")
+                    add("canon", m, n, NC, fam, "rows")
+                else:
+                    add("ternary", m, n, N, fam, "rows")
             add("canon", m, n, NC, fam, "gscale")
         # CAGrad (7 ms per call): quick tier on the canonical sublist only
         if thorough:
@@ -150,6 +157,7 @@ def _variants(J0, mode):
         return [("1", J0)]
     if mode == "gscale":
         return [(f"t={t:g}", J0 * t) for t in GSCALES]
+    assert mode.startswith("rows")
     out = []
     for c in itertools.product(A.L3, repeat=m):
         if len(set(c)) == 1:
@@ -167,10 +175,12 @@ def _configs(fam, mode, m):
     if fam == "mgda":
         if mode == "base":
             return [("mgda", it, ep) for it in MGDA_ITERS for ep in MGDA_EPS]
+        if mode == "rows-fw20":
+            return [("mgda", 20, 0.0)]
         return [("mgda", 20, 0.0), ("mgda", 100, 1e-3)] if mode == "rows" else [("mgda", 5, 0.0), ("mgda", 100, 0.0), ("mgda", 100, 1e-3)]
     if mode == "base":
         return [("cagrad", c) for c in CAGRAD_C]
-    return [("cagrad", 1.0), ("cagrad", 2.0)] if mode == "rows" else [("cagrad", c) for c in CAGRAD_C]
+    return [("cagrad", 1.0), ("cagrad", 2.0)] if mode.startswith("rows") else [("cagrad", c) for c in CAGRAD_C]
 
 
 def _call(agg, Jt):
